@@ -95,7 +95,7 @@ def check(pid, tier, seed, only=None, jobs_n=None):
     for o in obs:
         if only and o.name not in only:
             continue
-        if tier == "quick" and o.tier != "quick":
+        if o.tier == "replay" or (tier == "quick" and o.tier != "quick"):
             continue
         shards = list(enumerate(o.shards))
         if tier == "quick" and o.quick_shards is not None:
@@ -171,6 +171,26 @@ def check(pid, tier, seed, only=None, jobs_n=None):
             rec["trace_equiv_samples"] = len(v["selftest"])
         rec["_functions"] = v.get("functions_encoded", [])
         records.append(rec)
+
+    # E2 obligations (SMT queries over the translated kernels), when the harness has them
+    if hasattr(mod, "run_e2") and not only:
+        for rec in mod.run_e2(tier, EVID):
+            rec.setdefault("twin", False); rec.setdefault("shard", {}); rec["_functions"] = rec.pop("functions", [])
+            if rec.get("verdict") == "cex":
+                nrep += 1
+                rp = os.path.join(EVID, "replays", f"{pid}-e2-{nrep}.json")
+                json.dump({"property": pid, "module": modname, "fn": "e2_replay", "shard": {}, "args": rec["args"]}, open(rp, "w"), indent=1)
+                rc, outp = replay(rp)
+                rec["replay"] = rp
+                if rc == 1:
+                    rec["verdict"] = "violation"
+                    violations.append((rp, rec, outp))
+                else:
+                    rec["verdict"] = "harness-error"
+                    harness_errors.append(f"E2 {rec['obligation']}: model {rec['args']} did not reproduce on the real function (rc={rc})")
+            elif rec.get("verdict") == "harness-error":
+                harness_errors.append(f"E2 {rec['obligation']}: {rec.get('detail','')[:300]}")
+            records.append(rec)
 
     # known findings of this property: replay the witness; still failing -> KNOWN-FINDING line
     kf = load_known()
